@@ -10,6 +10,7 @@ Inductive kop :=
 | KMut (id : N)        (* the directory becomes snapshot id *)
 | KTick (dt : Z)       (* milliseconds *)
 | KList (p : N)
+| KListF (p : N)       (* a listing whose cache write fails before the entry is complete *)
 | KProbe (p : N)       (* HTTP HEAD / Gopher+ ! on the directory *)
 | KDamage.             (* cache file replaced by undecodable bytes, mtime = now *)
 
@@ -23,6 +24,7 @@ Definition to_op (o : kop) : op N N :=
   | KMut i => Mutate (fun _ => i)
   | KTick d => Tick d
   | KList p => List p
+  | KListF p => ListF p 0
   | KProbe p => Probe p
   | KDamage => Damage []
   end.
